@@ -142,7 +142,8 @@ type c16Case struct {
 	Zeta    [2]uint64   `json:"zeta"`
 	PI      [4]uint64   `json:"pi_hash"`
 	What    string      `json:"what"`
-	OnlyVan bool        `json:"only_vanishing,omitempty"` // compare evalVanishingPoly values instead of running Verify
+	OnlyVan bool        `json:"only_vanishing,omitempty"`      // compare evalVanishingPoly values instead of running Verify
+	Repeat  int         `json:"repeat_on_same_chip,omitempty"` // the same PlonkChip performs this many further evaluations first
 }
 
 func (c *c16Case) refOpenings() *ref.OpeningSet {
@@ -199,7 +200,13 @@ func c16Run(c c16Case) caseResult {
 		chip := plonk.NewPlonkChip(api, cd)
 		if c.OnlyVan {
 			vars := gates.NewEvaluationVars(os.Constants, os.Wires, h)
+			for i := 0; i < c.Repeat; i++ {
+				chip.VerifEvalVanishingPoly(*vars, ch, os, chip.VerifZetaPowN(ch.PlonkZeta))
+			}
 			return flatQE(chip.VerifEvalVanishingPoly(*vars, ch, os, chip.VerifZetaPowN(ch.PlonkZeta)))
+		}
+		for i := 0; i < c.Repeat; i++ {
+			chip.Verify(ch, os, h)
 		}
 		chip.Verify(ch, os, h)
 		return nil
@@ -376,7 +383,7 @@ func TestC16(t *testing.T) {
 	compiledEvery = 0 // the PLONK check is exercised on compiled systems through the whole verifier (C02, C01)
 	r := s.r
 	defer r.Flush()
-	r.Rule("opening sets and challenges over GF(p^2) shaped by (a) the two real circuit descriptions (real openings with some wires re-drawn, or fully random openings) and (b) synthetic descriptions (1..3 challenge rounds, routed wires = chunks x quotient degree factor with factor 1..8 up to 80 wires, 2..6 gates from the parameterised gate grammar in 1..3 selector groups, degree bits 2..14, random coset shifts); quotient chunk 0 of every round is solved with the reference so that the identity holds (must ACCEPT); then one opening coordinate (constants, sigmas, wires, Zs, next Zs, partial products, quotient chunks), one challenge (beta, gamma, alpha, zeta) or the public-input hash is changed (must agree with the reference, which rejects).  The export hook evalVanishingPoly is compared value-by-value on random inputs.  Non-trivial = every case; distinct = full case.")
+	r.Rule("opening sets and challenges over GF(p^2) shaped by (a) the two real circuit descriptions (real openings with some wires re-drawn, or fully random openings) and (b) synthetic descriptions (1..3 challenge rounds, routed wires = chunks x quotient degree factor with factor 1..8 up to 80 wires, 2..6 gates from the parameterised gate grammar in 1..3 selector groups, degree bits 2..14, random coset shifts); quotient chunk 0 of every round is solved with the reference so that the identity holds (must ACCEPT); then one opening coordinate (constants, sigmas, wires, Zs, next Zs, partial products, quotient chunks), one challenge (beta, gamma, alpha, zeta) or the public-input hash is changed (must agree with the reference, which rejects).  The export hook evalVanishingPoly is compared value-by-value on random inputs.  Non-trivial = every case; distinct = full case.  Synthetic descriptions reach the circuit as plonky2-style common_circuit_data.json read by the repository's reader (decoy values in unrelated / duplicated fields); a fifth of the synthetic cases evaluates the statement 2-3 times through one PlonkChip in one circuit (same verdict / values expected).")
 	r.Assume("reference vanishing polynomial and gates (C15)", "descriptions whose routed-wire count is not a multiple of the chunk size are outside what the code indexes and may be refused")
 	s.on("plonk", func(b json.RawMessage) caseResult { return c16Run(unmarshal[c16Case](b)) })
 	if s.replay(t) {
@@ -440,7 +447,13 @@ func TestC16(t *testing.T) {
 		default:
 			mutate(rt, &c)
 		}
-		s.exec(rt, "plonk", c, "synthetic/"+c.What)
+		class := "synthetic/" + c.What
+		if rapid.IntRange(0, 4).Draw(rt, "repeat") == 0 {
+			// one PlonkChip checking the same statement several times in one circuit
+			c.Repeat = rapid.IntRange(1, 2).Draw(rt, "times")
+			class += "/repeated-on-one-chip"
+		}
+		s.exec(rt, "plonk", c, class)
 	})
 	// shapes the code cannot index: routed wires not a multiple of the chunk size
 	rapidCheck(t, "unindexable", tierN(28, 600), func(rt *rapid.T) {
